@@ -22,8 +22,9 @@ LETTER_OF = {v: k for k, v in KIND_OF.items()}
 
 SEEDS = {
     "single": [],
-    "rails": [["ac", "Q0", "C", "A1", "QA"], ["ac", "A1", "I", "A2", ""]],            # S1 has rail Q0 (see mk)
+    "rails": [["ac", "Q0", "C", "A1", "QA", "g1"], ["ac", "A1", "I", "A2", "", "g2"]],            # S1 has rail Q0 (see mk)
     "mux": [["ac", "S1", "R", "A1", ""], ["as", "S2", ""], ["ac", ["A1", "S2"], "M", "MX", ""], ["ac", "MX", "I", "A3", ""]],
+    "mux3": [["ac", "S1", "R", "A1", ""], ["as", "S2", ""], ["ac", ["A1", "S1", "S2"], "M", "MX", ""], ["ac", "MX", "I", "A3", ""], ["ac", "A1", "I", "A4", ""]],
     "phases": [["ac", "S1", "C", "A1", ""], ["ac", "A1", "I", "A2", ""], ["sp", [["p", 1.0], ["q", 2.0]]], ["cp", "A1", ["p"], "l"], ["cp", "A2", [["p", 0.05]], "d"]],
     "freed": [["ac", "S1", "R", "A1", ""], ["ac", "A1", "I", "A2", ""], ["ac", "S1", "C", "A3", ""], ["dc", "A1", True]],
 }
@@ -40,9 +41,9 @@ def apply(s, op):
     if k == "as":
         s.add_source(LET["S"](op[1]), rail=op[2])
     elif k == "ac":
-        s.add_comp(list(op[1]) if isinstance(op[1], (list, tuple)) else op[1], comp=LET[op[2]](op[3]), rail=op[4])
+        s.add_comp(list(op[1]) if isinstance(op[1], (list, tuple)) else op[1], comp=LET[op[2]](op[3]), rail=op[4], group=op[5] if len(op) > 5 else "")
     elif k == "cc":
-        s.change_comp(op[1], comp=LET[op[2]](op[3]), rail=op[4])
+        s.change_comp(op[1], comp=LET[op[2]](op[3]), rail=op[4], group=op[5] if len(op) > 5 else "")
     elif k == "dc":
         s.del_comp(op[1], del_childs=op[2])
     elif k == "sp":
@@ -140,6 +141,8 @@ def ops(s, budget, letters="RCIM", phase_ops=True, gone=(), analysis_op=False):
     for c, p in targets:
         for L in letters:
             add(c, ["ac", p, L, fresh, ""])
+            if L == letters[0]:
+                add(c + 1, ["ac", p, L, fresh, "", "g1"])
             add(c + 1, ["ac", p, L, fresh, frail])
             add(c + 1, ["ac", p, L, names[0], ""])
             add(c + 2, ["ac", p, L, fresh, fresh])
@@ -153,7 +156,7 @@ def ops(s, budget, letters="RCIM", phase_ops=True, gone=(), analysis_op=False):
                 add(0, ["ac", [a, b], "M", fresh, ""])
                 add(1, ["ac", [a, b], "R", fresh, ""])
     if len(names) >= 3:  # three-input muxes (an input that is the child of another input included)
-        for a, b, c in itertools.permutations(names[:4], 3):
+        for a, b, c in itertools.permutations(names[:3], 3):
             add(1, ["ac", [a, b, c], "M", fresh, ""])
     for old in gone:  # re-adding a name that was deleted earlier in this history
         if old not in used:
@@ -170,6 +173,8 @@ def ops(s, budget, letters="RCIM", phase_ops=True, gone=(), analysis_op=False):
         for L in letters + "S":
             kc = 0 if L in "RC" else 1
             add(c + kc, ["cc", t, L, t, ""])
+            if L == letters[0]:
+                add(c + kc + 1, ["cc", t, L, t, "", "g2"])
             add(c + kc + 1, ["cc", t, L, fresh, ""])
             add(c + kc + 1, ["cc", t, L, t, frail])
             add(c + kc + 2, ["cc", t, L, t, t])
@@ -252,12 +257,12 @@ def model_apply(models, op):
                 o = _owner(m, d_)
                 if o not in owners:
                     owners.append(o)
-            C[op[3]] = dict(letter=op[2], parents=owners, rail="" if op[2] == "I" else op[4], group="", pc="{}")
+            C[op[3]] = dict(letter=op[2], parents=owners, rail="" if op[2] == "I" else op[4], group=op[5] if len(op) > 5 else "", pc="{}")
             out.append(m)
         elif k == "cc":
             t = _owner(m, op[1])
             old = C.pop(t)
-            new = dict(letter=op[2], parents=old["parents"], rail="" if op[2] == "I" else op[4], group="", pc="{}")
+            new = dict(letter=op[2], parents=old["parents"], rail="" if op[2] == "I" else op[4], group=op[5] if len(op) > 5 else "", pc="{}")
             # keep position irrelevant (order-free); rename references
             C[op[3]] = new
             for r in C.values():
